@@ -73,7 +73,9 @@ Section Alg.
   | JX (k : nat)                          (* FieldAdapter(dom, k) *)
   | JNull (m : nat)                       (* NullOperator(domain, target) *)
   | JCh (a : lop1) (b : jop)              (* a @ b *)
-  | JAd (a b : jop).                      (* a._myadd(b, False)   (SumOperator) *)
+  | JAd (a b : jop)                       (* a._myadd(b, False)   (SumOperator) *)
+  | JMask (cs : nat -> bool) (a : jop).   (* a @ BlockDiagonal(k: Scaling(0 if cs k else 1))
+                                             (make_partial_var, InsertionOperator._jac; used by C04) *)
 
   Definition times1 (a : lop1) (x : vec) : vec :=
     match a with
@@ -98,6 +100,7 @@ Section Alg.
     | JNull _ => fun _ => a0
     | JCh a b => times1 a (times b d)
     | JAd a b => fun i => aadd (times a d i) (times b d i)
+    | JMask cs a => times a (fun k => if cs k then fun _ => a0 else d k)
     end.
 
   Definition ezero : env := fun _ _ => a0.
@@ -109,6 +112,7 @@ Section Alg.
     | JNull _ => ezero
     | JCh a b => adj b (adj1 a y)
     | JAd a b => eadd (adj a y) (adj b y)
+    | JMask cs a => fun k => if cs k then fun _ => a0 else adj a y k
     end.
 
   (* ---- value + Jacobian as the code assembles them ------------------------------------------
@@ -210,6 +214,7 @@ Section Alg.
     | JAd a b => match jshape K dims a, jshape K dims b with
                  | Some m, Some m' => if m =? m' then Some m else None
                  | _, _ => None end
+    | JMask _ a => jshape K dims a
     end.
 
   Fixpoint eshape (K : nat) (dims : nat -> nat) (e : expr) : option nat :=
@@ -243,13 +248,16 @@ Section Alg.
   Inductive mop :=
   | MSand (J : jop) (M : lop1)            (* SandwichOperator.make(J, M) = J^dagger M J  (prepend_jac) *)
   | MScale (c : A) (m : mop)              (* SandwichOperator.make(Scaling(sqrt c), m)   (ScalingOperator.__call__) *)
-  | MAdd (m1 m2 : mop).                   (* reduce(add, metrics)                         (_apply_operator_sum) *)
+  | MAdd (m1 m2 : mop)                    (* reduce(add, metrics)                         (_apply_operator_sum) *)
+  | MMask (cs : nat -> bool) (m : mop).   (* SandwichOperator.make(BlockDiagonal(0/1), m)  (prepend_jac; used by C04) *)
 
   Fixpoint mapply (m : mop) (d : env) : env :=
     match m with
     | MSand J M => adj J (times1 M (times J d))
     | MScale c m => fun k i => amul c (mapply m d k i)
     | MAdd m1 m2 => eadd (mapply m1 d) (mapply m2 d)
+    | MMask cs m => fun k => if cs k then fun _ => a0
+                             else mapply m (fun k' => if cs k' then fun _ => a0 else d k') k
     end.
 
   Definition resid (data : option vec) (v : vec) : vec :=
@@ -349,7 +357,7 @@ Arguments Var {A P}. Arguments Const {A P}. Arguments AddC {A P}. Arguments MulC
 Arguments Scale {A P}. Arguments Ptw {A P}. Arguments Mul {A P}. Arguments Add {A P}.
 Arguments Sum {A P}. Arguments Vdot {A P}. Arguments Sq2 {A P}.
 Arguments D {A}. Arguments Sc {A}. Arguments Contract {A}. Arguments Vd {A}.
-Arguments JX {A}. Arguments JNull {A}. Arguments JCh {A}. Arguments JAd {A}.
+Arguments JX {A}. Arguments JNull {A}. Arguments JCh {A}. Arguments JAd {A}. Arguments JMask {A}.
 Arguments EGauss {A P}. Arguments EScale {A P}. Arguments EAdd {A P}.
-Arguments MSand {A}. Arguments MScale {A}. Arguments MAdd {A}.
+Arguments MSand {A}. Arguments MScale {A}. Arguments MAdd {A}. Arguments MMask {A}.
 Arguments Build_ptw_entry {A}. Arguments pf {A}. Arguments phf {A}. Arguments phd {A}.
